@@ -83,6 +83,10 @@ func (cache *Cache) Sign(message []byte) (sig hotstuff.QuorumSignature, err erro
 
 // Verify verifies the given quorum signature against the message.
 func (cache *Cache) Verify(signature hotstuff.QuorumSignature, message []byte) error {
+	if signature == nil {
+		// nothing to build a key from; the verdict is the underlying implementation's
+		return cache.impl.Verify(signature, message)
+	}
 	var key strings.Builder
 	hash := sha256.Sum256(message)
 	_, _ = key.Write(hash[:])
@@ -103,6 +107,10 @@ func (cache *Cache) Verify(signature hotstuff.QuorumSignature, message []byte) e
 
 // BatchVerify verifies the given quorum signature against the batch of messages.
 func (cache *Cache) BatchVerify(signature hotstuff.QuorumSignature, batch map[hotstuff.ID][]byte) error {
+	if signature == nil {
+		// nothing to build a key from; the verdict is the underlying implementation's
+		return cache.impl.BatchVerify(signature, batch)
+	}
 	// sort the list of ids from the batch map
 	ids := slices.Sorted(maps.Keys(batch))
 	var hash hotstuff.Hash
